@@ -115,6 +115,21 @@ class AbsWatch(Monitor):
                                 # output had already run and left the pool
                                 # when the output completed
                                 preds.append('first_abs_child_already_finished')
+                            import re
+                            late = re.compile(
+                                r'^\[%s/%s/\d+:(succeeded|failed)[^\]]*\] '
+                                r'completed output %s$' % (
+                                    re.escape(kk[0]), re.escape(kk[1]),
+                                    re.escape(kk[2])))
+                            if not preds and any(
+                                    late.match(m) for _l, m in h.log.records):
+                                # the output's message was handled after the
+                                # job's final message, on a proxy that had
+                                # completed and left the pool: recorded, but
+                                # children neither spawned nor satisfied
+                                # (C10-F1 / C19-F1 seen from here)
+                                preds.append(
+                                    'abs_output_completed_after_final_status')
                             self.res.violate('abs_prerequisite_not_satisfied', {
                                 'task': i.identity, 'abs_output': list(kk),
                                 'incarnation': h.incarnation,
